@@ -45,16 +45,21 @@ def load_property(prop):
 # -- canaries -------------------------------------------------------------------
 
 
-def make_mutator(contract, old, new):
+def make_mutator(contract, old, new, callee=None):
+    """callee: qualified name of a function of the same module that the function under contract calls (and that the
+    symbolic execution therefore inlines): the edit is made there and installed as an override."""
     def mutate(pf):
-        src = interp_mod.function_source(contract.module, contract.function)
+        target = callee or contract.function
+        src = interp_mod.function_source(contract.module, target)
         if src.count(old) != 1:
-            raise api.ContractError("canary text %r occurs %d times in %s" % (old, src.count(old), contract.function))
+            raise api.ContractError("canary text %r occurs %d times in %s" % (old, src.count(old), target))
         msrc = textwrap.dedent(src.replace(old, new))
         tree = ast.parse(msrc)
         node = tree.body[0]
-        npf = interp_mod.PyFunc(node, pf.globs, pf.closure, pf.name, pf.qualname, pf.filename)
-        return npf
+        if callee is None:
+            return interp_mod.PyFunc(node, pf.globs, pf.closure, pf.name, pf.qualname, pf.filename)
+        pf.extra_overrides = {callee: interp_mod.PyFunc(node, pf.globs, pf.closure, callee.split(".")[-1], callee, pf.filename)}
+        return pf
     return mutate
 
 
@@ -96,8 +101,8 @@ def _task_inner(args):
         if kind == "canary":
             c = _STATE["contracts"][idx]
             k = extra
-            old, new, expect = c.canaries[k]
-            r = api.symbolic_run(c, tier, mutate=make_mutator(c, old, new), stop_on=expect)
+            old, new, expect = c.canaries[k][:3]
+            r = api.symbolic_run(c, tier, mutate=make_mutator(c, old, new, *c.canaries[k][3:]), stop_on=expect)
             return kind, (idx, k), r.asdict()
         if kind == "extra":
             fn = _STATE["extra"][idx]
@@ -338,7 +343,7 @@ def main(argv=None):
     canary_report = []
     for (i, k), r in canaries.items():
         c = contracts[i]
-        old, new, expect = c.canaries[k]
+        old, new, expect = c.canaries[k][:3]
         failed = sorted({v["obligation"] for v in r["violations"]})
         if expect == "!verify":
             # quantified obligations: the solvers refute by `unknown` rather than `sat`; the mutant must at least stop
